@@ -2,6 +2,7 @@ package main
 
 import (
 	"fmt"
+	"go/token"
 	"go/types"
 	"os"
 	"os/exec"
@@ -117,6 +118,129 @@ func runC09(r *Run, p *Prog) {
 			}
 		}
 		r.Stat("non_reader_functions", n)
+	})
+	// ---- O1p: the two primitives are what the cursor analysis takes them to be. Everything above rests on: the read
+	// primitive advances the position by exactly one on every path, and yields -1 exactly when the position was at or
+	// beyond the end, otherwise the byte at that position (0..255), read under `position < len(input)`; the step-back
+	// primitive subtracts exactly one.
+	r.Guard("O1", func() {
+		T := NewTerms(p)
+		nx := a.next
+		st := a.cursorT.Underlying().(*types.Struct)
+		posN, inN := st.Field(a.posIdx).Name(), st.Field(a.inIdx).Name()
+		recv := ""
+		if len(nx.Params) > 0 {
+			recv = nx.Params[0].Name()
+		}
+		posT := "param:" + recv + "." + posN
+		lenT := "call:len(param:" + recv + "." + inN + ")"
+		// (a) the advance
+		var adv []*ssa.Store
+		for _, b := range nx.Blocks {
+			for _, in := range b.Instrs {
+				if s, ok := in.(*ssa.Store); ok && isRecvField(s.Addr, nx, a.posIdx, a.cursorT) {
+					adv = append(adv, s)
+				}
+			}
+		}
+		okAdv := len(adv) == 1
+		if okAdv {
+			bo, isBo := adv[0].Val.(*ssa.BinOp)
+			okAdv = isBo && bo.Op == token.ADD && strip(T.T(bo.X)) == posT
+			if okAdv {
+				k, isK := constInt(bo.Y)
+				okAdv = isK && k == 1
+			}
+			if okAdv {
+				every, _ := everyPathPasses(nx, nil, isReturn, func(i ssa.Instruction) bool { return i == ssa.Instruction(adv[0]) })
+				okAdv = every
+			}
+		}
+		r.Ob("O1", shortName(nx), "the read primitive advances the position by exactly one on every path", nx.Pos(), okAdv,
+			"the read primitive does not add exactly 1 to the position on every path: the bounds of every reader (position relative to the end of the input, progress of loops) are computed from that step")
+		// (b) the value
+		okVal, why := true, ""
+		nRet := 0
+		var check func(v ssa.Value, facts []Fact, depth int)
+		check = func(v ssa.Value, facts []Fact, depth int) {
+			if depth > 4 {
+				okVal, why = false, "result too deeply merged"
+				return
+			}
+			switch x := v.(type) {
+			case *ssa.Phi:
+				for i, e := range x.Edges {
+					pred := x.Block().Preds[i]
+					fs := append(append([]Fact{}, T.FactsAt(pred)...), T.edgeFactsOn(pred, x.Block())...)
+					check(e, fs, depth+1)
+				}
+			case *ssa.Const:
+				if k, ok := constInt(x); !ok || k != -1 {
+					okVal, why = false, "a constant other than -1 is returned: "+strip(T.T(x))
+					return
+				}
+				// -1 only where the position is at or beyond the end
+				lo := false
+				for _, f := range facts {
+					if f.Op == "LE" && strip(f.A) == lenT && strip(f.B) == posT {
+						lo = true
+					}
+				}
+				if !lo {
+					okVal, why = false, "-1 is returned on a path that has not established position >= len(input)"
+				}
+			case *ssa.Convert:
+				ix, ok := x.X.(*ssa.Index)
+				if !ok {
+					okVal, why = false, "the byte result is not input[position]"
+					return
+				}
+				if strip(T.T(ix.X)) != "param:"+recv+"."+inN || strip(T.T(ix.Index)) != posT {
+					okVal, why = false, "the byte result is "+strip(T.T(ix))+", not input[position]"
+					return
+				}
+				guarded := false
+				for _, f := range T.FactsAt(ix.Block()) {
+					if f.Op == "LT" && strip(f.A) == posT && strip(f.B) == lenT {
+						guarded = true
+					}
+				}
+				if !guarded {
+					okVal, why = false, "input[position] is read without position < len(input)"
+				}
+				if bt, isB := x.Type().Underlying().(*types.Basic); !isB || bt.Kind() != types.Int {
+					okVal, why = false, "the byte is not converted to int (a signed narrower type would make bytes >= 0x80 negative)"
+				}
+			default:
+				okVal, why = false, "unexpected result "+strip(T.T(v))
+			}
+		}
+		for _, rv := range returnedValues(nx, 0) {
+			nRet++
+			check(rv.Val, T.FactsAt(rv.Ret.Block()), 0)
+		}
+		r.Ob("O1", shortName(nx), "the read primitive yields -1 exactly at or beyond the end and the byte at the position otherwise", nx.Pos(), okVal && nRet > 0, why)
+		// (c) the step back
+		bk := a.back
+		var dec []*ssa.Store
+		for _, b := range bk.Blocks {
+			for _, in := range b.Instrs {
+				if s, ok := in.(*ssa.Store); ok && isRecvField(s.Addr, bk, a.posIdx, a.cursorT) {
+					dec = append(dec, s)
+				}
+			}
+		}
+		okDec := len(dec) == 1
+		if okDec {
+			bo, isBo := dec[0].Val.(*ssa.BinOp)
+			okDec = isBo && bo.Op == token.SUB
+			if okDec {
+				k, isK := constInt(bo.Y)
+				_, isLd := bo.X.(*ssa.UnOp)
+				okDec = isK && k == 1 && isLd
+			}
+		}
+		r.Ob("O1", shortName(bk), "the step-back primitive subtracts exactly one from the position", bk.Pos(), okDec, "the step-back primitive does not subtract exactly 1")
 	})
 	r.Floor("O1", 5)
 	r.Floor("O2", 10)
